@@ -189,7 +189,26 @@ def c14b(ck, prog):
     ok = set(lits) == {"HEAD", "OPTIONS"}
     if ok:
         ok = len(lits["HEAD"]) == 1 and all(re.search(r"^contains\(.*const 'GET'\)$", x) for x in lits["HEAD"]) and not lits["OPTIONS"]
-    ck.ob(R, "list:HEAD-iff-GET,+OPTIONS", ok, f.loc(None), "" if ok else "default_options_with extends the method list with %r" % {k: sorted(v) for k, v in lits.items()}, how="push(\"HEAD\") iff contains(\"GET\"); push(\"OPTIONS\") always")
+    how_list = "push(\"HEAD\") iff contains(\"GET\"); push(\"OPTIONS\") always"
+    if not ok and not pushes:
+        # the same list as an iterator chain: registered.chain(has_get.then_some("HEAD")).chain(once("OPTIONS")).collect()
+        col = [c for c in f.calls() if c.name == "collect" or c.name == "from_iter"]
+        for c in col:
+            d = decision.describe_deep(f, c.args[0], 10)
+            m = re.fullmatch(r"chain\(chain\(into_iter\(arg1\),then_some\((any|contains)\((iter\(deref\(arg1\)\)|deref\(arg1\)|arg1),(closure\{\}|const 'GET')\),const 'HEAD'\)\),once\(const 'OPTIONS'\)\)", d)
+            if not m:
+                continue
+            if m.group(1) == "any":
+                # the predicate is equality with "GET"
+                anyc = [x for x in f.calls() if x.name == "any"]
+                cdef = f.origin(anyc[0].args[1]) if anyc else None
+                cf = prog.fns.get(cdef[-1][1][1].get("def")) if cdef and cdef[-1][0] == "agg" else None
+                eqs = [x for x in cf.calls() if x.name == "eq"] if cf is not None else []
+                if not (len(eqs) == 1 and len(cf.calls()) == 1 and (cf.const_args(eqs[0])[1] or {}).get("s") == "GET" and decision.show(decision.bool_expr(cf)).startswith("eq(")):
+                    continue
+            ok = True
+            how_list = "registered ++ (HEAD if any == GET) ++ OPTIONS, collected"
+    ck.ob(R, "list:HEAD-iff-GET,+OPTIONS", ok, f.loc(None), "" if ok else "default_options_with extends the method list with %r" % {k: sorted(v) for k, v in lits.items()}, how=how_list)
     join = [c for c in f.calls() if c.name == "join"]
     sep = (f.const_args(join[0])[1] or {}).get("s") if join else None
     ok = sep == ", "
@@ -245,6 +264,20 @@ def c14b(ck, prog):
         conds = conds_at(rh, prog, c.bb)
         got[v] = sorted(conds)
     ok = set(got) == {"GET", "PUT", "POST", "PATCH", "DELETE"} and all(len(v) == 1 and re.fullmatch(r"is_some\(arg2\.%s\)" % k, v[0]) for k, v in got.items())
+    if not ok and not got:
+        # the same list as a table: [("M", handlers.M.is_some()), ..].into_iter().filter_map(|(m, filled)| filled.then_some(m)).collect()
+        dw = rh.calls_to(r"Handler::default_options_with$")
+        d = decision.describe_deep(rh, dw[0].args[0], 10) if dw else ""
+        m = re.fullmatch(r"(?:collect|from_iter)\(filter_map\(into_iter\(array\{(.*)\}\),closure\{\}\)\)", d)
+        if m:
+            rows = re.findall(r"tuple\{const '(\w+)',is_some\(arg2\.(\w+)\)\}", m.group(1))
+            fm = [c for c in rh.calls() if c.name == "filter_map"]
+            cdef = rh.origin(fm[0].args[1]) if fm else None
+            cf = prog.fns.get(cdef[-1][1][1].get("def")) if cdef and cdef[-1][0] == "agg" else None
+            sel = [(c.name, [decision.describe_deep(cf, a, 4) for a in c.args]) for c in cf.calls()] if cf is not None else []
+            ok = (sorted(a for a, b in rows) == sorted(["GET", "PUT", "POST", "PATCH", "DELETE"]) and all(a == b for a, b in rows)
+                  and len(rows) == m.group(1).count("tuple{") and sel == [("then_some", ["arg2.1", "arg2.0"])])
+            got = {a: "is_some(arg2.%s)" % b for a, b in rows}
     ck.ob(R, "register:list-from-slots", ok, rh.loc(None), "" if ok else "the advertised method list is built as %r, expected \"M\" exactly when handlers.M is filled" % got, how="push(\"M\") iff handlers.M.is_some(), M in GET PUT POST PATCH DELETE")
 
 
